@@ -248,3 +248,37 @@ def ob_files_on_page(kind: int) -> bool:
 
 def confirm_files_on_page(kind):
     return not _files_on_page(kind)
+
+
+# ---- the failsafe application answers EVERY path (the ones under its asset prefix included)
+EVERY_PATHS = ['/', '/x', '/some/where/deep', '//', '/%00', '/clastic_assets', '/clastic_assets/', '/clastic_assets/..', '/clastic_assets/../settings.py',
+               '/clastic_assets/%2e%2e/app.py', '/clastic_assets/img/../../x', '/clastic_assets/missing.css', '/clastic_assets//', '/clastic_assets/./common.css',
+               '/clastic_assets/common.css', '/clastic_assets/..%2f..%2fetc/passwd', '/clastic_assets/%00', '/clastic_assets/a/b/c/../../../../..']
+EVERY_METHODS = ['GET', 'POST', 'PUT', 'DELETE', 'HEAD']
+
+
+def _every_path(path_i, method_i, tb_i):
+    """200 for every path and method; the page carries the error text unless the path names a real asset file"""
+    text = ['Traceback (most recent call last):\n  File "f.py", line 1, in g\nValueError: plarp <&>', 'no traceback at all', ''][tb_i]
+    app = F.create_app(text, ['app.py'])
+    from werkzeug.test import Client
+    from werkzeug.wrappers import Response
+    resp = Client(app, Response).open(EVERY_PATHS[path_i], method=EVERY_METHODS[method_i])
+    if resp.status_code != 200:
+        return False
+    if EVERY_METHODS[method_i] == 'HEAD':
+        return True
+    body = resp.get_data(True)
+    if resp.mimetype == 'text/css':
+        return 'common.css' in EVERY_PATHS[path_i]
+    return 'plarp &lt;&amp;&gt;' in body if tb_i == 0 else ('no traceback at all' in body if tb_i == 1 else '<html' in body.lower())
+
+
+def ob_every_path(path_i: int, method_i: int, tb_i: int) -> bool:
+    from harness.util import untraced
+    with untraced():
+        return _every_path(path_i, method_i, tb_i)
+
+
+def confirm_every_path(path_i, method_i, tb_i):
+    return not _every_path(path_i, method_i, tb_i)
